@@ -11,11 +11,11 @@ slot() {
     if [ $((i % N)) = $k ]; then
       prop=${id%%-*}
       extra=$(grep "^$id " seeded/extra.txt 2>/dev/null | cut -d' ' -f2-)
-      SEED_TARGET=/tmp/seedtest-target-$k ./seedtest seeded/$id $prop $extra 2>&1 | tail -1
+      SEED_TARGET=/tmp/seedtest-target-$$-$k ./seedtest seeded/$id $prop $extra 2>&1 | tail -1
     fi
     i=$((i+1))
   done
-  rm -rf /tmp/seedtest-target-$k
+  rm -rf /tmp/seedtest-target-$$-$k
 }
 for k in $(seq 0 $((N-1))); do slot $k & done
 wait
